@@ -30,6 +30,12 @@ def mkdim(letter, variant=0):
     spec = ALPHA[letter]
     if variant == 0:
         return fd.Dimension(letter=letter, name=spec["name"], items=list(spec["items"]))
+    if variant == "sub":
+        # the same dimension restricted / re-ordered (e.g. the historic part of the years): same letter and name
+        its = list(spec["items"])
+        return fd.Dimension(letter=letter, name=spec["name"], items=its[:-1] if len(its) > 1 else its + ["extra"])
+    if variant == "renamed":
+        return fd.Dimension(letter=letter, name=spec["name"] + " (alt)", items=list(spec["items"]))
     # a different dimension that clashes by letter
     return fd.Dimension(letter=letter, name=spec["name"] + " bis", items=["zz0", "zz1", "zz2"][: 1 + variant])
 
@@ -136,6 +142,30 @@ class Pairs(Facet):
         else:
             check_set(X + Y, m_union(x, y), "setop-+")
         check_set(X, x, "setop-+-mutates-receiver")
+        if overlap:
+            # set algebra goes by letter: the argument's dimensions of the same letters may differ in their other
+            # fields (fewer items, another name) without changing which letters the result holds, and in which order
+            for variant in ("sub", "renamed"):
+                Yv = fd.DimensionSet(dim_list=[mkdim(l, variant) for l in y])
+                for opname, fn, exp in (
+                    ("|", lambda: X | Yv, m_union(x, y)),
+                    ("&", lambda: X & Yv, m_inter(x, y)),
+                    ("-", lambda: X - Yv, m_diff(x, y)),
+                    ("^", lambda: X ^ Yv, m_union(m_diff(x, y), m_diff(y, x))),
+                    ("union_with", lambda: X.union_with(Yv), m_union(x, y)),
+                    ("intersect_with", lambda: X.intersect_with(Yv), m_inter(x, y)),
+                    ("difference_with", lambda: X.difference_with(Yv), m_diff(x, y)),
+                ):
+                    res = fn()
+                    require(list(res.letters) == list(exp), f"setop-{opname}-same-letter-other-fields", f"{x} {opname} {y}({variant}): letters {tuple(res.letters)} != {tuple(exp)}")
+                    require(len(set(res.letters)) == len(res.letters), f"setop-{opname}-same-letter-other-fields", "letters not unique")
+                require(raises(lambda: X + Yv), "plus-accepts-overlap", f"{x} + {y}({variant}) did not raise")
+                if len(y) == 1:
+                    Dv = mkdim(y[0], variant)
+                    require(list((X - Dv).letters) == m_diff(x, y), "setop---dimension-same-letter-other-fields", f"{x} - {y}({variant})")
+                    require(list((X & Dv).letters) == m_inter(x, y), "setop-&-dimension-same-letter-other-fields", f"{x} & {y}({variant})")
+                    require(list((X ^ Dv).letters) == m_union(m_diff(x, y), m_diff(y, x)), "setop-^-dimension-same-letter-other-fields", f"{x} ^ {y}({variant})")
+                    require(list((X | Dv).letters) == m_union(x, y), "setop-|-dimension-same-letter-other-fields", f"{x} | {y}({variant})")
         if len(y) == 1:  # bare Dimension as right operand
             D = mkdim(y[0])
             check_set(X | D, m_union(x, y), "setop-|-dimension")
